@@ -443,7 +443,7 @@ func init() {
 	register(&Check{
 		ID: "C19", Level: "exploration", MinNontriv: 5,
 		Anchors: []string{"pkg/adaptation/plugin.go", "pkg/adaptation/adaptation.go", "pkg/stub/stub.go"},
-		Rule:    "rounds with 2-6 stub plugins each issuing 150 unsolicited update lists (0-4 updates, random fields, ids that make the callback report failures or fail) from outside any handler while 1-8 runtime goroutines issue 150 lifecycle requests each; online mutual-exclusion counters in the update callback and in every lifecycle handler, offline exactly-once / argument equality / result equality over unique ids, porcupine sequencer windows over the mixed history; plus a never-started stub; plus updates issued while Start is in progress, from the Configure handler and from the Synchronize handler, a connection dropped while the update is inside the callback, and callbacks slower than the request timeout; an update after the runtime issued a state change without an event (refused); distinct = distinct (list length, failed count) shapes, callback errors",
+		Rule:    "rounds with 2-6 stub plugins each issuing 150 unsolicited update lists (0-4 updates, random fields, ids that make the callback report failures or fail) from outside any handler while 1-8 runtime goroutines issue 150 lifecycle requests each; online mutual-exclusion counters in the update callback and in every lifecycle handler, offline exactly-once / argument equality / result equality over unique ids, porcupine sequencer windows over the mixed history; plus a never-started stub; plus updates issued while Start is in progress, from the Configure handler and from the Synchronize handler, a connection dropped while the update is inside the callback, and callbacks slower than the request timeout; an update after the runtime issued a state change without an event (refused); a launched probe dying during a creation while another plugin's 300 ms update waits (the callback must not start after a handler of the request and finish before the request returns); distinct = distinct (list length, failed count) shapes, callback errors",
 		Assumptions: []string{
 			"handlers run only inside request processing, so 'callback overlaps a handler' is exactly 'concurrent with the processing of another request'; waiting for the lock inside a caller's call window is not counted",
 		},
